@@ -264,6 +264,8 @@ inductive SOp where
   /-- one `EchoServerDoer.recur()`: `server.service()`, then every connection's received bytes are queued back to it
   (`ix.tx(bytes(ix.rxbs)); ix.clearRxbs()`) -/
   | svce
+  /-- something the application does to a remoter that has no effect on streams, sockets or faults (e.g. `refreshable = False`) -/
+  | nop
   /-- the listen socket's `accept()` will raise this (non-EAGAIN) OSError when it gets that far in its queue -/
   | afault (code : Nat)
   /-- `reopen()` with the bind/listen of the new listen socket failing -/
@@ -287,6 +289,7 @@ def Server.step (s : Server) : SOp → Server × Status
   | .conn p => (if s.curListen.isSome then { s with pending := s.pending ++ [.conn p] } else s, .ok)
   | .afault code => (if s.curListen.isSome then { s with pending := s.pending ++ [.fault code] } else s, .ok)
   | .svc => let r := s.service; (r.1, statusOf r.2)
+  | .nop => (s, .ok)
   | .svce =>
     match s.service with
     | (s1, some e) => (s1, .raised e)
